@@ -274,6 +274,7 @@ func c18Space(tier string) *core.Space {
 			if must, _, _ := c.expect(present); must || len(c.events) > 0 {
 				r.Nontrivial++
 			}
+			var later []func()
 			judge("initial")
 			for _, e := range c.events {
 				p := filepath.Join(root, e.file)
@@ -297,9 +298,59 @@ func c18Space(tier string) *core.Space {
 				}
 				r.Transitions++
 				if strings.HasSuffix(e.file, ".so") {
-					continue // native modules are not watched: no event reaches the server
+					// native modules are not watched: no event reaches the server. The next save of the requiring file
+					// (changed content) must bring its missing-module diagnostics in line with a fresh start on that disk
+					saved := text + "-- saved\n"
+					os.WriteFile(filepath.Join(root, c.req), []byte(saved), 0o644)
+					s.ChangeFull(c.req, saved)
+					s.Save(c.req, saved)
+					s.Watched([]drv.FileEvent{{Rel: c.req, Type: 2}})
+					var t6 []string
+					for _, d := range s.Diags[c.req] {
+						if d.Type == 6 {
+							t6 = append(t6, d.Key())
+						}
+					}
+					sort.Strings(t6)
+					disk := map[string]string{}
+					for f := range present {
+						b, _ := os.ReadFile(filepath.Join(root, f))
+						disk[f] = string(b)
+					}
+					disk[c.req] = saved
+					label, got := "after-"+e.String()+"-and-save", strings.Join(t6, " ; ")
+					later = append(later, func() {
+						root2 := drv.NewWorkspace(disk)
+						defer drv.RemoveWorkspace(root2)
+						s2, err := drv.Start(root2, drv.Options{InitOptions: drv.AllChecks()})
+						if err != nil {
+							return
+						}
+						defer s2.Close()
+						var f6 []string
+						for _, d := range s2.Diags[c.req] {
+							if d.Type == 6 {
+								f6 = append(f6, d.Key())
+							}
+						}
+						sort.Strings(f6)
+						r.States++
+						if want := strings.Join(f6, " ; "); want != got {
+							sig := "missing-module-diagnostics-differ-from-a-fresh-start-after-a-native-module-event"
+							r.Outcome(sig)
+							coreS := fmt.Sprintf("%s | files %v | %s: %s | sep %s | %s", sig, sortedKeys(present), c.req, strings.Split(text, "\n")[0], c.sep, label)
+							r.Fail("c18", i, sig, coreS, map[string]interface{}{"failure_core": coreS, "files": sortedKeys(present), "requiring_file": c.req, "text": saved, "stage": label, "fresh_server": want, "history_server": got})
+						} else {
+							r.Outcome("native-module-event-followed-by-save-agrees-with-fresh-start")
+						}
+					})
+					continue
 				}
 				judge("after-" + e.String())
+			}
+			s.Close()
+			for _, f := range later {
+				f()
 			}
 			if i%997 == 0 {
 				r.Sample(map[string]interface{}{"files": c.tree, "requiring_file": c.req, "text": text, "separator": c.sep, "events": fmt.Sprint(c.events), "diagnostics": s.Diags[c.req]})
